@@ -14,12 +14,26 @@ const MODES: [(UndefinedBehavior, &str); 4] = [
 ];
 
 fn envs() -> Vec<Environment<'static>> {
+    envs_variant(0)
+}
+
+/// how values reach the output: 0 = plain, 1 = HTML auto-escaping for every template, 2 = a custom
+/// formatter that only delegates to the default one (the undefined rules of printing live in more than
+/// one place of the engine; all of them must implement the same table)
+const ENV_VARIANTS: [&str; 3] = ["plain", "html_autoescape", "delegating_formatter"];
+
+fn envs_variant(variant: usize) -> Vec<Environment<'static>> {
     MODES
         .iter()
         .map(|(m, _)| {
             let mut env = Environment::new();
             env.set_undefined_behavior(*m);
             env.add_function("probe", || Value::from(""));
+            match variant {
+                1 => env.set_auto_escape_callback(|_| minijinja::AutoEscape::Html),
+                2 => env.set_formatter(|out, state, value| minijinja::escape_formatter(out, state, value)),
+                _ => {}
+            }
             env
         })
         .collect()
@@ -58,7 +72,7 @@ fn check_monotone(envs: &[Environment<'static>], src: &str, name: &str, family: 
         key: format!("undefined {} family={}", clause, family),
         case: format!("{} ctx#{} :: {}", name, ci, src),
         detail,
-        replay: json!({"source": src, "ctx": ci}),
+        replay: json!({"source": src, "ctx": ci, "variant": ENV_VARIANTS.iter().position(|v| family.ends_with(v)).unwrap_or(0)}),
     };
     for (i, o) in outs.iter().enumerate() {
         if let Out::Panic(p) = o {
@@ -164,6 +178,8 @@ fn site_table(r: &reg::Registry) -> Vec<(String, String)> {
                 "{{ U|F }}", "{{ U|F(1) }}", "{{ U|F('a') }}", "{{ 1|F(U) }}", "{{ 'ab'|F(U) }}", "{{ xs|F(U) }}", "{{ m|F(U) }}", "{{ U|F(U) }}",
                 "{{ xs|F(1, U) }}", "{{ 'ab'|F('a', U) }}", "{{ xs|F(attribute=U) }}", "{{ xs|F(U, U) }}", "{{ [U]|F }}", "{{ [U, 1]|F }}", "{{ {'k': U}|F }}",
                 "{% if U|F %}t{% else %}f{% endif %}", "{% for i in U|F %}x{% endfor %}",
+                // captured / safe operands next to the undefined one (filters have separate paths for them)
+                "{{ [U, 1]|F('-'|safe) }}", "{{ [U, 'a'|safe]|F }}", "{{ U|F('a'|safe) }}", "{{ ('a'|safe)|F(U) }}", "{{ ('a'|safe)|F(U, 'b') }}", "{{ ('a'|safe)|F('b', U) }}",
             ] {
                 v.push(("filter".to_string(), form.replace('F', f).replace('U', u).replace("(attribute", "(attribute")));
             }
@@ -214,7 +230,7 @@ pub fn main(args: Args) -> i32 {
     if let Some(p) = &args.replay {
         let doc = load_replay(p);
         let j = &doc["replay"];
-        let envs = envs();
+        let envs = envs_variant(j["variant"].as_u64().unwrap_or(0) as usize);
         let mut l = Local::default();
         let ci = j["ctx"].as_u64().unwrap() as usize;
         let outs = check_monotone(&envs, j["source"].as_str().unwrap(), "replay", "replay", &ctxs[ci], ci, &acc, &mut l);
@@ -232,12 +248,12 @@ pub fn main(args: Args) -> i32 {
             1
         };
     }
-    // 1. matrix on direct syntactic sites
-    {
-        let envs = envs();
+    // 1. matrix on direct syntactic sites, under every output route
+    for variant in 0..ENV_VARIANTS.len() {
+        let envs = envs_variant(variant);
         let mut l = Local::default();
         for site in matrix_sites() {
-            let outs = check_monotone(&envs, &site.src, "matrix", "matrix", &ctxs[1], 1, &acc, &mut l);
+            let outs = check_monotone(&envs, &site.src, "matrix", &format!("matrix/{}", ENV_VARIANTS[variant]), &ctxs[1], 1, &acc, &mut l);
             for i in 0..4 {
                 let good = match (&outs[i], site.ok[i]) {
                     (Out::Ok(s), true) => s == site.out,
@@ -248,10 +264,10 @@ pub fn main(args: Args) -> i32 {
                 };
                 if !good {
                     acc.fail(Failure {
-                        key: format!("undefined matrix site={} mode={}", site.class, MODES[i].1),
+                        key: format!("undefined matrix site={} mode={}{}", site.class, MODES[i].1, if variant > 0 { format!(" output={}", ENV_VARIANTS[variant]) } else { String::new() }),
                         case: format!("{} under {}", site.src, MODES[i].1),
                         detail: format!("expected {} but got {:?}", if site.ok[i] { format!("Ok({:?})", site.out) } else { "Err(UndefinedError)".into() }, outs[i]),
-                        replay: json!({"source": site.src, "ctx": 1}),
+                        replay: json!({"source": site.src, "ctx": 1, "variant": variant}),
                     });
                 }
             }
@@ -267,11 +283,18 @@ pub fn main(args: Args) -> i32 {
     let sites = site_table(&registry);
     acc.count("table_sites", sites.len() as u64);
     par_chunks(sites.len() as u64, 32, &acc, |r, l| {
-        let envs = envs();
+        let all: Vec<Vec<Environment<'static>>> = (0..ENV_VARIANTS.len()).map(envs_variant).collect();
         for i in r {
             let (fam, src) = &sites[i as usize];
-            for (ci, ctx) in ctxs.iter().enumerate().skip(1) {
-                check_monotone(&envs, src, &format!("site#{}", i), fam, ctx, ci, &acc, l);
+            for (variant, envs) in all.iter().enumerate() {
+                let fam = if variant == 0 { fam.clone() } else { format!("{}/{}", fam, ENV_VARIANTS[variant]) };
+                for (ci, ctx) in ctxs.iter().enumerate().skip(1) {
+                    // (the other output routes with one context: they differ in how values are written)
+                    if variant > 0 && ci > 1 {
+                        continue;
+                    }
+                    check_monotone(envs, src, &format!("site#{}", i), &fam, ctx, ci, &acc, l);
+                }
             }
         }
     });
@@ -296,9 +319,9 @@ pub fn main(args: Args) -> i32 {
         // depth 3 by stride
         let opts3 = gen::Opts { depth: 3, ..opts };
         let size3 = gen::Gen::new(opts3).size();
-        let stride3 = 53u64;
+        let stride3 = 11u64;
         let n3 = (size3 + stride3 - 1) / stride3;
-        acc.count("programs_depth3_stride53", n3);
+        acc.count("programs_depth3_stride11", n3);
         par_chunks(n3, 128, &acc, |r, l| {
             let envs = envs();
             let g = gen::Gen::new(opts3);
@@ -364,7 +387,7 @@ pub fn main(args: Args) -> i32 {
             level: "exploration",
             tier: args.tier,
             seed: args.seed,
-            rule: format!("(1) matrix: 35 direct syntactic sites (incl. every argument form of default / is defined / is undefined) (incl. re-entry of a recursive loop) x 4 undefined operand spellings x 4 modes against the documented table (error kind UndefinedError, exact output); (2) site table generated from the registry in defaults.rs: every built-in filter x 17 argument forms, every test x 8, every global function x 6, 62 operator/statement forms, each with 2 undefined operand spellings x 2 contexts x 4 modes, monotonicity oracle; (3) every {} program of the depth-2 space of G x 3 contexts (two with missing keys) x 4 modes{}; (4) 5 multi-template families. distinct non-trivial = (source, context) pairs whose outcome differs between modes", if stride == 1 { "".to_string() } else { format!("{}rd", stride) }, if args.tier == Tier::Thorough { " plus every 53rd depth-3 program" } else { "" }),
+            rule: format!("(1) matrix: 35 direct syntactic sites (incl. every argument form of default / is defined / is undefined) (incl. re-entry of a recursive loop) x 4 undefined operand spellings x 4 modes against the documented table (error kind UndefinedError, exact output); (2) site table generated from the registry in defaults.rs: every built-in filter x 23 argument forms (six with safe strings next to the undefined operand), every test x 8, every global function x 6, 62 operator/statement forms, each with 3 undefined operand spellings x 2 contexts x 4 modes, monotonicity oracle; the matrix and the site table are repeated under HTML auto-escaping and under a custom formatter that only delegates to the default one; (3) every {} program of the depth-2 space of G x 3 contexts (two with missing keys) x 4 modes{}; (4) 5 multi-template families. distinct non-trivial = (source, context) pairs whose outcome differs between modes", if stride == 1 { "".to_string() } else { format!("{}rd", stride) }, if args.tier == Tier::Thorough { " plus every 11th depth-3 program" } else { "" }),
             exhaustive: true,
             bound: json!({"modes": ["Strict", "SemiStrict", "Lenient", "Chainable"]}),
             assumptions: vec!["monotonicity compares whole-render outputs; error kinds are only checked on the matrix sites".into()],
